@@ -4,9 +4,11 @@
 (*                                                                                   *)
 (* State                                                                             *)
 (*   strs   function object id -> sequence of byte strings (insertion order)          *)
-(*   mode   function object id -> "none" | "lex" | "len": which sorted view the        *)
-(*          object currently offers (SortableStrVec keeps the insertion order and     *)
-(*          exposes the sorted order through a second view)                           *)
+(*   mode   function object id -> "none" | "lex" | "len" | "custom": which sorted view  *)
+(*          the object currently offers (SortableStrVec keeps the insertion order and  *)
+(*          exposes the sorted order through a second view).  "custom" = sorted by a   *)
+(*          caller-supplied comparator (the harness always supplies the byte order):   *)
+(*          the view must be sorted, but binary_search may decline to use it.          *)
 (* A byte string is a sequence of 0..255.  Refusal rule: push may fail when it leaves *)
 (* the content unchanged (FixedLenStrVec refuses strings longer than N); a read may   *)
 (* never return a wrong string.                                                      *)
@@ -43,7 +45,7 @@ PushStrNoIdx(o, s) == strs' = WithS(o, Append(strs[o], s)) /\ mode' = WithM(o, "
 PushStrRefused(o, s) == UNCHANGED strvars
 
 (* sort: the insertion-order view is untouched; the object now offers a sorted view *)
-SortStr(o, kind) == /\ kind \in {"lex", "len"}
+SortStr(o, kind) == /\ kind \in {"lex", "len", "custom"}
                     /\ mode' = WithM(o, kind) /\ UNCHANGED strs
 SortRefused(o) == UNCHANGED strvars
 
@@ -85,7 +87,7 @@ ObsStr(s, m, p) ==
     /\ p.oob = None
     /\ p.has_it => p.it = s
     (* the sorted view may be withheld (refusal); when given it must be right for the mode *)
-    /\ p.has_sorted => /\ m \in {"lex", "len"}
+    /\ p.has_sorted => /\ m \in {"lex", "len", "custom"}
                        /\ IsPermutation(p.sorted, s)
-                       /\ IF m = "lex" THEN LexSorted(p.sorted) ELSE LenSorted(p.sorted)
+                       /\ IF m = "len" THEN LenSorted(p.sorted) ELSE LexSorted(p.sorted)
 =============================================================================
